@@ -450,15 +450,10 @@ pub fn compare_solution(p: &str, sol: &v1::Solution, m: &MSolution, o: &CmpOpts)
                 }
             }
         }
-        if o.check_used_ids {
-            let got: BTreeSet<u64> = ec.used_decision_variable_ids.iter().copied().collect();
-            if got != mc.used_ids || got.len() != ec.used_decision_variable_ids.len() {
-                return fail(
-                    format!("{p}/constraint-used-ids"),
-                    format!("constraint {}: used ids {:?}, message mentions {:?}", mc.id, ec.used_decision_variable_ids, mc.used_ids),
-                );
-            }
-        }
+        // `used_decision_variable_ids` of an evaluated constraint is derived information that the statement of C05 does
+        // not list (whether an id occurring only with coefficient 0 counts is open); the id set of a FUNCTION evaluation
+        // is C01's business. Not asserted here.
+        let _ = o.check_used_ids;
     }
     if let Some(fr) = m.feasible_relaxed {
         if sol.feasible_relaxed != Some(fr) {
@@ -494,8 +489,15 @@ pub fn compare_solution(p: &str, sol: &v1::Solution, m: &MSolution, o: &CmpOpts)
         }
     }
     if let Some(dvs) = &o.decision_variables {
-        if &sol.decision_variables != dvs {
-            return fail(format!("{p}/decision-variables"), "solution.decision_variables differ from the instance's".to_string());
+        // the solution's copy of the variable list: the same variables (id, kind, effective bound); whether an implied
+        // bound is written out, and the remaining metadata, are not part of the statement
+        let key = |v: &v1::DecisionVariable| (v.id, v.kind, effective_bound(v).ok().map(|(l, h)| (l.to_bits(), h.to_bits())));
+        let mut a: Vec<_> = sol.decision_variables.iter().map(key).collect();
+        let mut b: Vec<_> = dvs.iter().map(key).collect();
+        a.sort();
+        b.sort();
+        if a != b {
+            return fail(format!("{p}/decision-variables"), format!("solution.decision_variables {:?} are not the instance's variables {:?} (id, kind, effective bound)", a, b));
         }
     }
     Ok(())
